@@ -605,4 +605,325 @@ Theorem mapor_refine_nk (H : list (oprec (mop oop))) : mohist_ok_nk H →
   ∀ (s : cmap orswot) (K : gset nat), moreach_nk H s K → s = mapor_spec_nk H K.
 Proof. intros Hok s K Hr. by destruct (nk_reach_spec H s K (mohist_nk_wf H Hok) Hr). Qed.
 
+(** the value-level specification of spec/MapOrswotSpec.v ([mo_entries], property C05) is, without
+    key removes, the member table of the Orswot specification of the projected ops *)
+Lemma nk_mo_entries os k : nk_ops os → mo_entries os k = ospec_entries (mo_proj os k).
+Proof.
+  intros Hs. apply map_eq. intros m. rewrite mo_entries_lookup, ospec_entries_lookup. cbn zeta.
+  assert (mo_entry os k m = ospec_entry (mo_proj os k) m) as ->; [|done].
+  apply dots_clock_ext. intros d. rewrite elem_of_mo_live_dots, elem_of_live_dots, mo_covered_false, covered_false.
+  split.
+  - intros [(d0 & ms & Ho & Hm) Hn]. split.
+    + exists ms. split; [|done]. apply elem_of_mo_proj. by exists d0.
+    + intros (c & ms' & [d1 Ho']%elem_of_mo_proj & Hm' & Hle). apply Hn. right. by exists d1, c, ms'.
+  - intros [(ms & [d0 Ho]%elem_of_mo_proj & Hm) Hn]. split; [by exists d0, ms|].
+    intros [(c & ks & Ho' & _)|(d1 & c & ms' & Ho' & Hm' & Hle)]; [by apply Hs in Ho'|].
+    apply Hn. exists c, ms'. split_and!; [|done..]. apply elem_of_mo_proj. by exists d1.
+Qed.
+
+(** * Part 5: corollaries *)
+Section corollaries.
+  Context (H : list (oprec (mop oop))) (Hok : mohist_ok_nk H).
+  Let HW : nk_wfH H := mohist_nk_wf H Hok.
+  Implicit Types (s : cmap orswot) (K : gset nat).
+
+  Lemma nk_reach_valid s K : moreach_nk H s K → nk_valid H K.
+  Proof using Hok. intros Hr. by destruct (nk_reach_spec H s K HW Hr). Qed.
+
+  (** the monitor's decider *)
+  Theorem mapor_nk_ok_reach s K : moreach_nk H s K → mapor_nk_ok H K s = true.
+  Proof using Hok. intros Hr. apply bool_decide_eq_true. by apply mapor_refine_nk. Qed.
+
+  (** C01 / C20: equal knowledge, equal (complete) state *)
+  Theorem mapor_converge_nk s1 s2 K : moreach_nk H s1 K → moreach_nk H s2 K → s1 = s2.
+  Proof using Hok. intros H1 H2. by rewrite (mapor_refine_nk H Hok s1 K H1), (mapor_refine_nk H Hok s2 K H2). Qed.
+
+  Lemma mmerge_reach_nk s1 K1 s2 K2 : moreach_nk H s1 K1 → moreach_nk H s2 K2 →
+    moreach_nk H (mmerge vo s1 s2) (K1 ∪ K2).
+  Proof. intros. by apply reach_merge. Qed.
+
+  (** C03: merging two replicas = having learned the union of their ops (hybrid replication) *)
+  Theorem mapor_merge_spec_nk s1 K1 s2 K2 : moreach_nk H s1 K1 → moreach_nk H s2 K2 →
+    mmerge vo s1 s2 = mapor_spec_nk H (K1 ∪ K2).
+  Proof using Hok. intros H1 H2. apply (mapor_refine_nk H Hok). by apply mmerge_reach_nk. Qed.
+  Theorem mapor_merge_is_union_nk s1 K1 s2 K2 s K :
+    moreach_nk H s1 K1 → moreach_nk H s2 K2 → moreach_nk H s K → K = K1 ∪ K2 → mmerge vo s1 s2 = s.
+  Proof using Hok. intros H1 H2 H3 ->. eapply mapor_converge_nk; [by apply mmerge_reach_nk|done]. Qed.
+
+  (** C02: [mmerge] is commutative, associative and idempotent on reachable states *)
+  Theorem mapor_merge_comm_nk s1 K1 s2 K2 : moreach_nk H s1 K1 → moreach_nk H s2 K2 →
+    mmerge vo s1 s2 = mmerge vo s2 s1.
+  Proof using Hok.
+    intros H1 H2. rewrite (mapor_merge_spec_nk s1 K1 s2 K2), (mapor_merge_spec_nk s2 K2 s1 K1) by done.
+    by rewrite (comm_L (∪) K1 K2).
+  Qed.
+  Theorem mapor_merge_assoc_nk s1 K1 s2 K2 s3 K3 :
+    moreach_nk H s1 K1 → moreach_nk H s2 K2 → moreach_nk H s3 K3 →
+    mmerge vo (mmerge vo s1 s2) s3 = mmerge vo s1 (mmerge vo s2 s3).
+  Proof using Hok.
+    intros H1 H2 H3.
+    rewrite (mapor_merge_spec_nk (mmerge vo s1 s2) (K1 ∪ K2) s3 K3) by (try apply mmerge_reach_nk; done).
+    rewrite (mapor_merge_spec_nk s1 K1 (mmerge vo s2 s3) (K2 ∪ K3)) by (try apply mmerge_reach_nk; done).
+    by rewrite (assoc_L (∪) K1 K2 K3).
+  Qed.
+  Theorem mapor_merge_idem_nk s K : moreach_nk H s K → mmerge vo s s = s.
+  Proof using Hok.
+    intros H1. rewrite (mapor_merge_spec_nk s K s K) by done. rewrite (idemp_L (∪) K).
+    symmetry. by apply mapor_refine_nk.
+  Qed.
+
+  (** C09: a duplicate op and a stale state are absorbed (no admissibility needed for the duplicate) *)
+  Theorem mapor_dup_apply_nk s K i r : moreach_nk H s K → H !! i = Some r → i ∈ K →
+    mapply vo s (op_val r) = s.
+  Proof using Hok.
+    intros Hr Hi HiK. rewrite (mapor_refine_nk H Hok s K Hr) at 1.
+    rewrite (nk_L1 H K i r HW (nk_reach_valid s K Hr) Hi).
+    assert (K ∪ {[i]} = K) as -> by set_solver. symmetry. by apply mapor_refine_nk.
+  Qed.
+  Theorem mapor_stale_merge_nk s1 K1 s2 K2 : moreach_nk H s1 K1 → moreach_nk H s2 K2 → K2 ⊆ K1 →
+    mmerge vo s1 s2 = s1 ∧ mmerge vo s2 s1 = s1.
+  Proof using Hok.
+    intros H1 H2 Hsub.
+    rewrite (mapor_merge_spec_nk s1 K1 s2 K2), (mapor_merge_spec_nk s2 K2 s1 K1) by done.
+    assert (K1 ∪ K2 = K1) as -> by set_solver. assert (K2 ∪ K1 = K1) as -> by set_solver.
+    split; symmetry; by apply mapor_refine_nk.
+  Qed.
+
+  (** the components of a reachable state *)
+  Theorem mapor_components_nk s K k : moreach_nk H s K →
+    let os := known_ops H K in
+    mclock s = mspec_clock os ∧ mdeferred s = ∅ ∧
+    (k ∈ dom (mentries s) ↔ ∃ d o, MUp d k o ∈ os) ∧
+    (∀ e, mentries s !! k = Some e →
+          eclock e = dots_clock (kdots os k) ∧ eval e = ospec_of (mo_proj os k)) ∧
+    mo_state_entries s k = ospec_entries (mo_proj os k).
+  Proof using Hok.
+    intros Hr os. rewrite (mapor_refine_nk H Hok s K Hr). unfold mapor_spec_nk. fold os.
+    assert (nk_ops os) as Hs.
+    { apply (nk_side_ops (hops H) (proj2 HW)), nk_side_known; [apply HW|by eapply nk_reach_valid]. }
+    split_and!; [done|done| | |].
+    - rewrite elem_of_dom, nk_entries_lookup, <- elem_of_mkeys_mentioned.
+      destruct (decide _) as [Hin|Hin].
+      + split; [done|by eexists].
+      + split; [by intros [? ?]|done].
+    - intros e. rewrite nk_entries_lookup. destruct (decide _); [|done]. intros [= <-].
+      cbn [nk_ent eclock eval]. by rewrite nk_entry_clock.
+    - unfold mo_state_entries. rewrite nk_entries_lookup. destruct (decide _) as [Hin|Hin]; [done|].
+      destruct (nk_absent_nil os k Hin) as [_ ->]. by vm_compute.
+  Qed.
+
+  (** the member sentence (C04/C05 for the nested set): [m] is in the set under [k] iff some
+      known add of [m] under [k] is covered by no known nested remove under [k] naming [m] *)
+  Theorem mapor_member_iff_nk s K k m : moreach_nk H s K →
+    m ∈ dom (mo_state_entries s k) ↔
+    ∃ d ms, MUp d k (OAdd d ms) ∈ known_ops H K ∧ m ∈ ms ∧
+            ¬ ∃ d' c ms', MUp d' k (ORm c ms') ∈ known_ops H K ∧ m ∈ ms' ∧ dcounter d <= vget c (dactor d).
+  Proof using Hok.
+    intros Hr. destruct (mapor_components_nk s K k Hr) as (_ & _ & _ & _ & ->).
+    set (os := known_ops H K).
+    assert (nk_side (hops H) os) as HS by (apply nk_side_known; [apply HW|by eapply nk_reach_valid]).
+    pose proof (nk_side_ops (hops H) (proj2 HW) os HS) as Hs.
+    set (p := mo_proj os k).
+    assert (∀ d ms, OAdd d ms ∈ p → dcounter d ≠ 0) as Hpos.
+    { intros d ms [d0 Ho]%elem_of_mo_proj. pose proof (Hs _ Ho) as Hop. cbn in Hop. subst d0.
+      destruct HW as [_ (_ & Hp & _)]. assert (0 < dcounter d); [|lia]. eapply Hp. by apply HS. }
+    assert (ospec_entry p m ≠ ∅ ↔ ∃ d, d ∈ live_dots p m) as Hlive.
+    { rewrite ospec_entry_empty_iff by done.
+      destruct (live_dots p m) as [|x l]; split; try done.
+      - by intros [? ?%elem_of_nil].
+      - intros _. exists x. by left. }
+    rewrite elem_of_dom, ospec_entries_lookup. cbn zeta.
+    transitivity (∃ d, d ∈ live_dots p m).
+    - rewrite <- Hlive, <- vis_empty_false. destruct (vis_empty (ospec_entry p m)); split; try done.
+      by intros [? ?].
+    - setoid_rewrite elem_of_live_dots. setoid_rewrite covered_false. split.
+      + intros (d & (ms & Hin & Hm) & Hn). apply elem_of_mo_proj in Hin as [d0 Ho].
+        pose proof (Hs _ Ho) as Hop. cbn in Hop. subst d0. exists d, ms. split_and!; [done..|].
+        intros (d' & c & ms' & Ho' & Hm' & Hle). apply Hn. exists c, ms'. split_and!; [|done..].
+        apply elem_of_mo_proj. by exists d'.
+      + intros (d & ms & Ho & Hm & Hn). exists d. split.
+        * exists ms. split; [|done]. apply elem_of_mo_proj. by exists d.
+        * intros (c & ms' & [d' Ho']%elem_of_mo_proj & Hm' & Hle). apply Hn. by exists d', c, ms'.
+  Qed.
+
+  (** the earlier value-level specification (C05) and both monitor deciders hold as well *)
+  Theorem mapor_values_refine_nk s K k : moreach_nk H s K →
+    mo_state_entries s k = mo_entries (known_ops H K) k.
+  Proof using Hok.
+    intros Hr. destruct (mapor_components_nk s K k Hr) as (_ & _ & _ & _ & ->).
+    rewrite nk_mo_entries; [done|].
+    apply (nk_side_ops (hops H) (proj2 HW)), nk_side_known; [apply HW|by eapply nk_reach_valid].
+  Qed.
+  Theorem mapor_valspec_ok_nk s K : moreach_nk H s K → movalspec_ok H K s = true.
+  Proof using Hok.
+    intros Hr. unfold movalspec_ok. apply andb_true_intro. split.
+    - apply forallb_forall. intros k _. apply bool_decide_eq_true. by apply mapor_values_refine_nk.
+    - apply bool_decide_eq_true. intros k Hk. rewrite elem_of_list_to_set, elem_of_mkeys_mentioned.
+      by apply (mapor_components_nk s K k Hr).
+  Qed.
+  Theorem mapor_keyspec_ok_nk s K : moreach_nk H s K → mkeyspec_ok H K s = true.
+  Proof using Hok. apply (map_keyspec_ok vo H (proj1 HW)). Qed.
+End corollaries.
+
+(** instance of the framework corollaries, for reference: the section [system] of
+    spec/System.v applies with [eqv := eq], [spec := mapor_spec_nk], [wfH := nk_wfH],
+    [valid := nk_valid], [L1 := nk_L1], [L2 := nk_L2] (see [nk_reach_spec]). *)
+
+(** every delivery discipline at least as strong as per-actor delivery (causal delivery in
+    particular), with or without state merges, reaches only states of [moreach_nk] *)
+Theorem mapor_refine_nk_any (adm : adm_t (mop oop)) (mg : Prop) H s K : mohist_ok_nk H →
+  (∀ K i, adm H K i → adm_per_actor H K i) →
+  reach mnew (mapply vo) (mmerge vo) adm mg H s K → s = mapor_spec_nk H K.
+Proof.
+  intros Hok Hadm Hr. apply (mapor_refine_nk H Hok).
+  induction Hr as [|s K i o Hr IH Ho Ha|s1 K1 s2 K2 Hm Hr1 IH1 Hr2 IH2].
+  - constructor.
+  - eapply reach_apply; [done..|by apply Hadm].
+  - by apply reach_merge.
+Qed.
+
+(** causal delivery: an op's dependency set contains its author's earlier ops *)
+Lemma nk_hist_deps_own H : mohist_ok_nk H →
+  ∀ i r j r', H !! i = Some r → (j < i)%nat → H !! j = Some r' → op_author r' = op_author r → j ∈ op_deps r.
+Proof.
+  induction 1 as [|H s K a cmd o Hok IH Hr Hown Hgen]; [intros i r j r' Hi; by rewrite lookup_nil in Hi|].
+  intros i r j r' Hi Hlt Hj Ha.
+  destruct (decide (i < length H)%nat) as [Hl|Hge].
+  - rewrite lookup_app_l in Hi by done. rewrite lookup_app_l in Hj by lia. by eapply IH.
+  - assert (i = length H) as ->.
+    { apply lookup_lt_Some in Hi. rewrite app_length in Hi. cbn in Hi. lia. }
+    rewrite lookup_app_r, Nat.sub_diag in Hi by lia. cbn in Hi. injection Hi as <-. cbn in *.
+    rewrite lookup_app_l in Hj by lia. by apply (Hown j r').
+Qed.
+Corollary mapor_refine_nk_causal (mg : Prop) H s K : mohist_ok_nk H →
+  reach mnew (mapply vo) (mmerge vo) adm_causal mg H s K → s = mapor_spec_nk H K.
+Proof.
+  intros Hok. apply mapor_refine_nk_any; [done|].
+  intros K' i (r & Hi & Hd). exists r. split; [done|]. intros j r' Hlt Hj Ha.
+  apply Hd. by eapply (nk_hist_deps_own H Hok).
+Qed.
+
+(** * Non-vacuity: two actors, two keys.  Actor 1 adds member 10 under key 7 (op 0); actor 2
+    sees it, removes 10 under key 7 (op 1, nested context {1:1}) and adds 20 under key 8
+    (op 2); actor 1 adds 21 under key 8 (op 3).  Replica A receives op 1 BEFORE op 0 (the
+    nested remove overtakes the add it observed: it is parked inside the nested set under key
+    7), then op 2.  Replica B receives ops 0 and 3.  Their merge equals the specification of
+    all four ops and the state of replica C that received the ops in order: 10 is gone. *)
+Local Ltac nk_adm :=
+  eexists; split; [done|]; intros [|[|[|[|j]]]] r' Hlt Hj Ha; cbn in Hj, Ha; simplify_eq; try lia; set_solver.
+Local Ltac nk_own :=
+  intros [|[|[|[|j]]]] r Hj Ha; cbn in Hj, Ha; simplify_eq; set_solver.
+
+Section example.
+  Let o0 : mop oop := MUp (Dot 1 1) 7 (OAdd (Dot 1 1) [10]).
+  Let o1 : mop oop := MUp (Dot 2 1) 7 (ORm {[1 := 1]} [10]).
+  Let o2 : mop oop := MUp (Dot 2 2) 8 (OAdd (Dot 2 2) [20]).
+  Let o3 : mop oop := MUp (Dot 1 2) 8 (OAdd (Dot 1 2) [21]).
+  Let r0 := OpRec 1 o0 ∅.
+  Let r1 := OpRec 2 o1 (∅ ∪ {[0%nat]}).
+  Let r2 := OpRec 2 o2 (∅ ∪ {[0%nat]} ∪ {[1%nat]}).
+  Let r3 := OpRec 1 o3 (∅ ∪ {[0%nat]}).
+  Let H : list (oprec (mop oop)) := [r0; r1; r2; r3].
+  Let KA : gset nat := ∅ ∪ {[1%nat]} ∪ {[2%nat]}.
+  Let KB : gset nat := ∅ ∪ {[0%nat]} ∪ {[3%nat]}.
+  Let KC : gset nat := ∅ ∪ {[0%nat]} ∪ {[1%nat]} ∪ {[2%nat]} ∪ {[3%nat]}.
+  Let sA1 := mapply vo mnew o1.
+  Let sA := mapply vo sA1 o2.
+  Let sB := mapply vo (mapply vo mnew o0) o3.
+  Let sC := mapply vo (mapply vo (mapply vo (mapply vo mnew o0) o1) o2) o3.
+
+  Example mapor_nk_example :
+    mohist_ok_nk H ∧
+    ¬ adm_causal H ∅ 1%nat ∧
+    moreach_nk H sA KA ∧
+    odeferred <$> (eval <$> mentries sA1 !! 7) = Some {[ ({[1 := 1]} : gmap N N) := ({[10]} : gset N) ]} ∧
+    odeferred <$> (eval <$> mentries sA !! 7) = Some {[ ({[1 := 1]} : gmap N N) := ({[10]} : gset N) ]} ∧
+    moreach_nk H sB KB ∧
+    mo_state_entries sB 7 = {[10 := {[1 := 1]}]} ∧
+    moreach_nk H (mmerge vo sA sB) (KA ∪ KB) ∧
+    moreach_nk H sC KC ∧ KC = KA ∪ KB ∧
+    mmerge vo sA sB = sC ∧ mmerge vo sB sA = sC ∧
+    mmerge vo sA sB = mapor_spec_nk H (KA ∪ KB) ∧
+    mapor_nk_ok H (KA ∪ KB) (mmerge vo sA sB) = true ∧
+    mapor_nk_ok H KA sA = true ∧
+    mo_state_entries sC 7 = ∅ ∧
+    odeferred <$> (eval <$> mentries sC !! 7) = Some ∅ ∧
+    mo_state_entries sC 8 = {[20 := {[2 := 2]}; 21 := {[1 := 2]}]}.
+  Proof.
+    assert (mohist_ok_nk H) as Hok.
+    { change H with (((([] ++ [r0]) ++ [r1]) ++ [r2]) ++ [r3]).
+      apply (hist_snoc _ _ _ _ _ _ _ (mapply vo mnew o0) _ 1 (MOAdd 8 [21])).
+      - apply (hist_snoc _ _ _ _ _ _ _ (mapply vo (mapply vo mnew o0) o1) _ 2 (MOAdd 8 [20])).
+        + apply (hist_snoc _ _ _ _ _ _ _ (mapply vo mnew o0) _ 2 (MORm 7 [10] None)).
+          * apply (hist_snoc _ _ _ _ _ _ _ mnew _ 1 (MOAdd 7 [10])); [constructor|constructor|nk_own|by vm_compute].
+          * apply (reach_apply _ _ _ _ _ _ mnew ∅ 0%nat r0); [constructor|done|nk_adm].
+          * nk_own.
+          * by vm_compute.
+        + apply (reach_apply _ _ _ _ _ _ _ _ 1%nat r1); [|done|nk_adm].
+          apply (reach_apply _ _ _ _ _ _ mnew ∅ 0%nat r0); [constructor|done|nk_adm].
+        + nk_own.
+        + by vm_compute.
+      - apply (reach_apply _ _ _ _ _ _ mnew ∅ 0%nat r0); [constructor|done|nk_adm].
+      - nk_own.
+      - by vm_compute. }
+    assert (moreach_nk H sA KA) as HA.
+    { apply (reach_apply _ _ _ _ _ _ _ _ 2%nat r2); [|done|nk_adm].
+      apply (reach_apply _ _ _ _ _ _ mnew ∅ 1%nat r1); [constructor|done|nk_adm]. }
+    assert (moreach_nk H sB KB) as HB.
+    { apply (reach_apply _ _ _ _ _ _ _ _ 3%nat r3); [|done|nk_adm].
+      apply (reach_apply _ _ _ _ _ _ mnew ∅ 0%nat r0); [constructor|done|nk_adm]. }
+    assert (moreach_nk H sC KC) as HC.
+    { apply (reach_apply _ _ _ _ _ _ _ _ 3%nat r3); [|done|nk_adm].
+      apply (reach_apply _ _ _ _ _ _ _ _ 2%nat r2); [|done|nk_adm].
+      apply (reach_apply _ _ _ _ _ _ _ _ 1%nat r1); [|done|nk_adm].
+      apply (reach_apply _ _ _ _ _ _ mnew ∅ 0%nat r0); [constructor|done|nk_adm]. }
+    assert (KC = KA ∪ KB) as HK by (apply (bool_decide_unpack _); by vm_compute).
+    assert (moreach_nk H (mmerge vo sA sB) (KA ∪ KB)) as HM by (by apply reach_merge).
+    split_and!.
+    - exact Hok.
+    - intros (r & Hr & Hd). cbn in Hr. injection Hr as <-. cbn in Hd.
+      revert Hd. apply (bool_decide_unpack _). by vm_compute.
+    - exact HA.
+    - apply (bool_decide_unpack _). by vm_compute.
+    - apply (bool_decide_unpack _). by vm_compute.
+    - exact HB.
+    - apply (bool_decide_unpack _). by vm_compute.
+    - exact HM.
+    - exact HC.
+    - exact HK.
+    - exact (mapor_merge_is_union_nk H Hok sA KA sB KB sC KC HA HB HC HK).
+    - apply (mapor_merge_is_union_nk H Hok sB KB sA KA sC KC HB HA HC).
+      apply (bool_decide_unpack _). by vm_compute.
+    - by apply (mapor_refine_nk H Hok).
+    - by apply (mapor_nk_ok_reach H Hok).
+    - by apply (mapor_nk_ok_reach H Hok).
+    - apply (bool_decide_unpack _). by vm_compute.
+    - apply (bool_decide_unpack _). by vm_compute.
+    - apply (bool_decide_unpack _). by vm_compute.
+  Qed.
+End example.
+
+Print Assumptions nk_apply_fresh.
+Print Assumptions nk_merge.
+Print Assumptions nk_L1.
+Print Assumptions nk_L2.
+Print Assumptions nk_reach_spec.
+Print Assumptions mohist_nk_wf.
 Print Assumptions mapor_refine_nk.
+Print Assumptions mapor_nk_ok_reach.
+Print Assumptions mapor_converge_nk.
+Print Assumptions mapor_merge_spec_nk.
+Print Assumptions mapor_merge_is_union_nk.
+Print Assumptions mapor_merge_comm_nk.
+Print Assumptions mapor_merge_assoc_nk.
+Print Assumptions mapor_merge_idem_nk.
+Print Assumptions mapor_dup_apply_nk.
+Print Assumptions mapor_stale_merge_nk.
+Print Assumptions mapor_components_nk.
+Print Assumptions mapor_member_iff_nk.
+Print Assumptions mapor_values_refine_nk.
+Print Assumptions mapor_valspec_ok_nk.
+Print Assumptions mapor_keyspec_ok_nk.
+Print Assumptions mapor_refine_nk_any.
+Print Assumptions mapor_refine_nk_causal.
+Print Assumptions mapor_nk_example.
